@@ -164,6 +164,36 @@ func genLimit(r *rand.Rand, id string) *Case {
 	c.L = L
 	in := plainStartup("u")
 	var xp []string
+	if r.Intn(8) == 0 {
+		// limits below 16 (the minimum size of a bufio.Reader): the start-up packet carries no parameters (its
+		// body of 5 bytes fits), every message body in (L, 16] must still be refused
+		L = 5 + r.Intn(11)
+		c.L = L
+		in = startup(196608, nil, true)
+		n := 1 + r.Intn(4)
+		for i := 0; i < n; i++ {
+			sz := []int{L - 1, L, L + 1, L + 2, 16, 17, 2 * L}[r.Intn(7)]
+			t := []byte("QPBDESHCdcf")[r.Intn(11)]
+			if sz <= L {
+				// a Sync-like body-less or short message the server can process: use Sync (empty body)
+				in = append(in, msgSync()...)
+				xp = append(xp, "Z")
+				continue
+			}
+			in = append(in, typed(t, randBytes(r, sz, false))...)
+			xp = append(xp, "E54000:ERROR")
+			if t == 'Q' {
+				xp = append(xp, "Z")
+			}
+		}
+		in = append(in, msgSync()...)
+		xp = append(xp, "Z")
+		c.In = in
+		c.Cuts = randCuts(r, len(in))
+		c.Extra["xp"] = strings.Join(xp, ",")
+		c.Extra["xend"] = "w"
+		return c
+	}
 	n := 1 + r.Intn(5)
 	seenOversize := false
 	for i := 0; i < n; i++ {
@@ -1143,6 +1173,19 @@ func genCopy(r *rand.Rand, id string) *Case {
 			over = true
 		}
 	}
+	if !over && r.Intn(3) == 0 {
+		// the client's stream ENDS inside the next message (after its type byte, inside or right behind its
+		// header, inside its body) while the handler is still reading: the handler must see an error that is
+		// not end-of-stream - a truncated COPY must never look like a completed one
+		tail := [][]byte{{'d'}, {'d', 0, 0, 0, 9}, {'d', 0, 0, 0, 9, 1, 2}, {'c'}, {'c', 0, 0}, {'f', 0, 0, 0, 8}, {'H', 0, 0, 0}, {'d', 0}}[r.Intn(8)]
+		in = append(in, tail...)
+		c.EOF = true
+		xk = append(xk, "k-L"+hxs("unexpected EOF"))
+		c.In = in
+		c.Cuts = randCuts(r, len(in))
+		c.Extra["xk"] = "=" + strings.Join(xk, ";")
+		return c
+	}
 	if !over {
 		// the handler is still waiting for input: nothing more is written
 		c.In = in
@@ -1476,6 +1519,15 @@ func genAuth(r *rand.Rand, id string) *Case {
 		in = append(in, typedLen('p', uint32(r.Intn(4)), nil)...)
 	case k < 15: // incomplete password message: the server must wait, not proceed
 		m := msgPassword("ok")
+		if r.Intn(2) == 0 {
+			// announces more than ever arrives, although what arrives looks like a complete, acceptable
+			// password; the client then hangs up (or stalls): never a login
+			m = typedLen('p', uint32(4+3+1+r.Intn(40)), []byte("ok\x00"))
+			in = append(in, m...)
+			c.In = in
+			c.EOF = r.Intn(3) != 0
+			return c
+		}
 		in = append(in, m[:1+r.Intn(len(m)-1)]...)
 		c.In = in
 		return c
@@ -1746,9 +1798,19 @@ func genMulti(r *rand.Rand, id string) *Case {
 	// overlapping; (2) connection 0 leaves a failed extended-query batch open (no Sync yet) while
 	// the others run complete cycles; (3) parameters of an array type decoded concurrently (the
 	// codec memoizes its plan in the type map: a shared map shows up under the race detector)
-	variant := r.Intn(10)
+	variant := r.Intn(12)
 	if variant == 1 {
 		c.Auth = true
+	}
+	if variant == 10 {
+		// every connection prepares the SAME statement name and stops right behind its Parse; the others then
+		// prepare, bind and execute that name; what a connection binds afterwards is its own statement (C07)
+		c.Extra["sched"] = "seq"
+	}
+	if variant == 11 {
+		// connection 0 stalls inside its start-up packet (or right behind an SSLRequest) while the others
+		// connect and run: admission of a connection must not wait for another connection's handshake (C15)
+		c.Extra["sched"] = "seq"
 	}
 	if variant == 9 {
 		// the first phase of every connection ends INSIDE the 4-byte length field of a message of 256 bytes or
@@ -1834,6 +1896,12 @@ func genMulti(r *rand.Rand, id string) *Case {
 			params = append(params, bindParam{v: []byte("{1,2," + strconv.Itoa(i) + "}")})
 		}
 		name := pick(r, namePool)
+		if variant == 10 {
+			name = "shared-name"
+		}
+		if variant == 11 && i == 0 {
+			pc = 1 + r.Intn(20) // inside the start-up packet
+		}
 		if r.Intn(3) == 0 {
 			// every connection prepares the SAME statement text (declared parameter type unspecified), some
 			// prespecify a type for it: what one connection is told must not depend on the others
@@ -1845,6 +1913,9 @@ func genMulti(r *rand.Rand, id string) *Case {
 			in = append(in, msgDescribe('S', "shared")...)
 		}
 		in = append(in, msgParse(name, q, randOids(r, 2))...)
+		if variant == 10 {
+			pc = len(in)
+		}
 		in = append(in, msgBind(name, name, nil, params, nil)...)
 		in = append(in, msgDescribe('P', name)...)
 		in = append(in, msgExecute(name, 0)...)
@@ -2020,6 +2091,9 @@ func genGoodVal(r *rand.Rand, letter byte, big bool) string {
 			return randBytes(r, 250+r.Intn(10), false)
 		case 4:
 			return []byte("\\x00'\"\n\t,é")
+		case 5:
+			// sizes around the writer's 64-byte scratch array (and around half of it: bytea in text format)
+			return randBytes(r, []int{29, 30, 31, 32, 33, 59, 60, 61, 62, 63, 64, 65, 66, 127, 128, 129}[r.Intn(16)], false)
 		}
 		return randBytes(r, r.Intn(9), false)
 	}
